@@ -12,15 +12,20 @@ if False and os.environ.get("C03_NOKF"):      # reproduce the findings: run with
 META = {
     "bounds": "synthetic curves over one-byte fields with the whole group enumerated (p=23 n=31, p=31 n=23, p=7 n=11, "
               "cofactor-2 p=23 n=13; thorough also p=61 n=59 and p=251 n=223/239 where the bit length of n is 8), "
-              "algorithms ECDSA and GOST R 34.10; ALL hash bytes (1 byte = field size; 2 bytes = longer than the field, "
-              "big-endian entry), ALL r, s, d, nonce bytes in 0..255, ALL public keys of the subgroup; *_be and *_le "
+              "algorithms ECDSA and GOST R 34.10; ALL hash bytes of length 1 (= field size), 2 and 3 (longer than the "
+              "field) for BOTH byte orders, under the library's byte-granular truncation rule: *_be reads the big-endian "
+              "integer of hash[0..min(len,B)) (leftmost = most significant bytes), *_le reads the little-endian integer "
+              "of hash[0..min(len,B)) (the first = LEAST significant bytes; hash[B..len) ignored), B = field bytes; the same "
+              "H mod n must be used by sign, verify and verify_priv_key of each byte order (sign_le output is fed to "
+              "verify_le and verify_priv_key_le with the long hash); ALL r, s, d, nonce bytes in 0..255, ALL public keys of the subgroup; *_be and *_le "
               "byte entry points with exactly sized buffers; decision equality of ecdsa_verify / ecdsa_verify_priv_key "
               "with the textbook verifier, signer equality + acceptance by both library verifiers, fault injection "
               "into the scalar multiplications",
     "outside": "the 32 built-in curves at full size; hash cut at the BIT length of n when that is not a multiple of 8 "
                "(FIPS 186-4 bits2int) - the oracle cuts at byte granularity like the library, so a disagreement there "
-               "(e.g. secp160r1 / secp224k1 with SHA-256, n one bit longer than the field) is NOT examined; *_le entry "
-               "points with a hash longer than the field (no standard defines it); public key at infinity or off the "
+               "(e.g. secp160r1 / secp224k1 with SHA-256, n one bit longer than the field) is NOT examined; for *_le with a "
+               "hash longer than the field no standard exists, the oracle is the library's documented first-bytes rule "
+               "(a caller expecting the MOST significant bytes of a little-endian digest to be kept is not served); public key at infinity or off the "
                "curve (C09); private key 0; the scalar multiplications themselves (C02) and the order-n arithmetic (C01) "
                "are specification stubs; bn-level API with operands wider than the byte API can produce",
     "assumptions": [
@@ -31,9 +36,8 @@ META = {
         "bn_import_be_hex in the curve constructor is a stub; memcpy = bounded byte loop",
         "EC_DISABLE_PUB_KEY_CHK as in tests/ecdsa (validation of imported keys is C09); EC_PF_FXP_MULT_ALGO = BIN "
         "(no base-point table needed because the multiplications are stubs)",
-        "KF_HASH_REDUCE: hashes numerically >= n excluded (finding hash-reduce); KF_VERIFY_RS0: r = 0 / s = 0 excluded in the "
-        "verifiers (finding verify-rs-zero); KF_MULT_STATUS: failing scalar multiplications excluded (finding mult-status); "
-        "KF_SIGN_K0: nonce 0 excluded in the signer (finding sign-k0)",
+        "no KF_ guard is in force: the four findings (hash-reduce, verify-rs-zero, mult-status, sign-k0) are repaired in /repo, "
+        "the oracle is the plain standard one",
     ],
     "harness_functions": ["harness", "body", "hash_int", "std_e", "std_verify", "env_curve_init", "env_bn_set", "env_point",
                           "env_point_c", "env_point_is", "env_index_of", "v_memcpy", "v_alloc", "v_buf", "sb_val", "sb_set",
@@ -75,8 +79,11 @@ def jobs(tier):
         big = c in (6, 7, 3)
         for gost in (0, 1):
             for mode in (1, 2, 3):
-                for endian, hlen in ((0, 1), (1, 1), (0, 2)):
+                # hash length 1 = field size; 2 and 3 = longer than the field (truncated by both byte orders)
+                for endian, hlen in ((0, 1), (1, 1), (0, 2), (1, 2), (1, 3), (0, 3)):
                     if tier == "quick" and (endian, hlen) != (0, 1) and c != 1:
+                        continue
+                    if tier == "quick" and (endian, hlen) == (0, 3):
                         continue
                     out.append(job(c, mode, gost, endian, hlen, timeout=1500 if big else None, cost=10 if big else 1))
     for gost in (0, 1):
